@@ -229,6 +229,8 @@ type msg struct {
 	// emptyFinal: the last data fragment is non-final and an empty final
 	// continuation closes the message.
 	emptyFinal bool
+	// frags, when set, are the data fragments (cuts is ignored).
+	frags [][]byte
 }
 
 func buildFrames(c *mon.C, ms []msg, side ref.Side) []ref.Frame {
@@ -244,6 +246,9 @@ func buildFrames(c *mon.C, ms []msg, side ref.Side) []ref.Frame {
 			}
 		}
 		frags = append(frags, m.payload[start:])
+		if m.frags != nil {
+			frags = m.frags
+		}
 		for fi, f := range frags {
 			if fi > 0 {
 				if m.pings>>uint(fi)&1 == 1 {
@@ -588,13 +593,93 @@ func subTornRuns() mon.Sub {
 	}
 }
 
+// fillValid returns exactly n bytes of valid UTF-8 mixing 1- to 4-byte code points.
+func fillValid(n int, phase int) []byte {
+	units := [][]byte{[]byte("a"), []byte("é"), []byte("€"), []byte("\U0001F600"), []byte("z")}
+	out := make([]byte, 0, n)
+	for k := phase; len(out) < n; k++ {
+		u := units[k%len(units)]
+		if len(out)+len(u) > n {
+			u = units[0]
+		}
+		out = append(out, u...)
+	}
+	return out
+}
+
+// sizeLens are the payload lengths on both sides of every header-length form
+// (7-bit, 16-bit, 64-bit) and of the usual buffer sizes.
+var sizeLens = []int{0, 1, 2, 124, 125, 126, 127, 128, 129, 255, 256, 4095, 4096, 4097, 65534, 65535, 65536, 65537, 65540, 70001, 131071, 131072}
+
+// subReaderSizes: text messages whose length (whole, or of one fragment) sits
+// exactly on a header-form or buffer threshold; valid ones must arrive intact,
+// one bad byte anywhere (first, last, around the thresholds) must be refused.
+func subReaderSizes() mon.Sub {
+	return mon.Sub{
+		Name: "reader-sizes", Exhaustive: true, Required: true,
+		N: func(string) int { return len(sizeLens) * 2 },
+		Do: func(c *mon.C) {
+			n := sizeLens[c.I%len(sizeLens)]
+			side := []ref.Side{ref.SideServer, ref.SideClient}[c.I/len(sizeLens)]
+			valid := fillValid(n, c.I)
+			variants := [][]byte{valid}
+			if n > 0 {
+				for _, at := range []int{0, n - 1, n / 2, 125, 126, 65535, 65536} {
+					if at >= n {
+						continue
+					}
+					bad := append([]byte(nil), valid...)
+					bad[at] = 0xff
+					variants = append(variants, bad)
+				}
+				cutTail := append([]byte(nil), valid...)
+				cutTail[n-1] = 0xc3 // a lead byte whose continuation never comes
+				variants = append(variants, cutTail)
+			}
+			for vi, pl := range variants {
+				np := 1
+				if vi == 0 {
+					np = 3
+				}
+				// one frame
+				if !runMessages(c, []msg{{op: ref.OpText, payload: pl, frags: [][]byte{pl}}}, side, np) {
+					return
+				}
+				// two fragments, the threshold length first / last; then followed by a second message
+				for _, k := range []int{1, 125, 126, 65535, 65536} {
+					if k >= n || (vi > 1 && k != 126 && k != 65536) {
+						continue
+					}
+					if !runMessages(c, []msg{{op: ref.OpText, payload: pl, frags: [][]byte{pl[:k], pl[k:]}}}, side, 1) {
+						return
+					}
+					if !runMessages(c, []msg{{op: ref.OpText, payload: pl, frags: [][]byte{pl[:n-k], pl[n-k:]}}, {op: ref.OpText, payload: []byte("é")}}, side, 1) {
+						return
+					}
+				}
+				if vi == 0 {
+					// the same bytes as binary, and behind another message
+					if !runMessages(c, []msg{{op: ref.OpBinary, payload: pl, frags: [][]byte{pl}}}, side, 1) {
+						return
+					}
+					if !runMessages(c, []msg{{op: ref.OpText, payload: []byte("€"), frags: [][]byte{[]byte("€")}}, {op: ref.OpText, payload: pl, frags: [][]byte{pl}}}, side, 1) {
+						return
+					}
+				}
+			}
+			c.Classf("len=%d side=%d", n, side)
+			c.Sample(map[string]interface{}{"length": n, "side": side, "variants": len(variants)})
+		},
+	}
+}
+
 func main() {
 	mon.Main(&mon.Spec{
 		Property: "C07",
 		Level:    "exploration",
 		Rule: "cases: standalone UTF8Reader on ALL byte strings of length <= 2 (quick) / <= 3 (thorough) plus an edge cover of 3- and 4-byte strings (every lead byte x continuation values {00,7f,80,8f,90,9f,a0,bf,c0,ff} in each position), each under every composition of its length and read buffers {1,2,3,4,64}; long strings built from 29 valid/invalid/truncated pieces under random chunk plans; torn runs: 14 multi-byte sequences cut at every inner position, then a run of r filler bytes (r = 0..40 and around 48/64/128/256; 7 fillers) before the awaited continuation bytes, in 8 contexts, with the chunk boundary exactly at the tear as source read boundary, fragment boundary and transport read boundary; " +
-			"reader level: 13 boundary payloads x every fragmentation (all 2^(n-1) compositions) x {plain, ping at every gap, empty fragment at every gap, both} x {last fragment final, empty final continuation} x {Reader+CheckUTF8, ReadMessage, ReadData} x 3 chunk plans x caller buffers {1,5,4096}, the same bytes as binary, and random sequences of 1-4 messages mixing valid text, binary garbage and invalid text (incl. a first message discarded mid code point). Oracle: unicode/utf8.Valid. distinct = lead-byte / (payload, side, variant) / (message-kind sequence) classes.",
+			"reader level: 13 boundary payloads x every fragmentation (all 2^(n-1) compositions) x {plain, ping at every gap, empty fragment at every gap, both} x {last fragment final, empty final continuation} x {Reader+CheckUTF8, ReadMessage, ReadData} x 3 chunk plans x caller buffers {1,5,4096}, the same bytes as binary, text messages (valid, and with one bad byte first / last / middle / at the thresholds / a truncated last code point) of every length in {0,1,2,124..129,255,256,4095..4097,65534..65537,65540,70001,131071,131072} as one frame and as two fragments with a threshold-length fragment first or last, and random sequences of 1-4 messages mixing valid text, binary garbage and invalid text (incl. a first message discarded mid code point). Oracle: unicode/utf8.Valid. distinct = lead-byte / (payload, side, variant) / (message-kind sequence) classes.",
 		Assumptions: []string{"Go's unicode/utf8.Valid is the standard definition of UTF-8 (RFC 3629)", "an invalid message may be reported before its end"},
-		Subs:        []mon.Sub{subShort(), subLong(), subTornRuns(), subReaderSplits(), subReaderSeqs()},
+		Subs:        []mon.Sub{subShort(), subLong(), subTornRuns(), subReaderSplits(), subReaderSizes(), subReaderSeqs()},
 	})
 }
